@@ -13,7 +13,7 @@ from gens import tables
 from permcorr import model_cls
 from solvers import COMBOS, Prepared, solver_cells
 
-UNITS = ["SolverStruct", "IndepGen", "ShapesBasis", "ShapesReps", "SkelSpg", "SkelBasis", "SkelIdx", "ShapesApi", "SkelApi", "ShapesSolvers", "SkelSolvers"]
+UNITS = ["SolverStruct", "IndepGen", "ShapesBasis", "ShapesReps", "SkelSpg", "SkelBasis", "SkelIdx", "ShapesApi", "SkelApi", "ShapesSolvers", "SkelSolvers", "Tables", "ShapesCombos", "ShapesPerm", "ShapesCoset", "ShapesSumRule", "ShapesSpg", "ShapesO1", "ShapesAuxO1", "ShapesAuxEig", "ShapesAuxBatch", "EigStruct", "CutoffGen", "ShapesGeom", "ShapesAuxCut", "SkelEig", "SkelMat", "SkelPerm", "SkelCut"]
 PROPS = ["props/C08.v"]
 EXTRA = ["theories/Pipeline.vo"]
 ASSUMPTIONS = ["floating point: the factor 1/sqrt(n_lp) is applied once in the compact matrix and once in C_trans; equality of values is checked to 1e-10 relative"]
